@@ -95,7 +95,15 @@ func drawType(t *rapid.T, pool []*ref.Type, depth int) *ref.Type {
 	case "list":
 		return ref.ListOf(drawType(t, pool, depth-1))
 	case "map":
-		return ref.MapOf(ref.Scalar(rapid.SampledFrom(gen.KeyScalars).Draw(t, "mk")), drawType(t, pool, depth-1))
+		// the key is usually a scalar, but the grammar allows any type: now and
+		// then a struct of the pool (which may be its only use in the package)
+		var key *ref.Type
+		if len(pool) > 0 && rapid.IntRange(0, 4).Draw(t, "structkey") == 0 {
+			key = pool[rapid.IntRange(0, len(pool)-1).Draw(t, "keypool")]
+		} else {
+			key = ref.Scalar(rapid.SampledFrom(gen.KeyScalars).Draw(t, "mk"))
+		}
+		return ref.MapOf(key, drawType(t, pool, depth-1))
 	case "tuple":
 		n := rapid.IntRange(1, 3).Draw(t, "tn")
 		ms := make([]*ref.Type, n)
